@@ -207,6 +207,12 @@ def traverse_facts(ctx, cq):
         else:
             F["entry.call"] = Fact("entered on the content root, outside any loop, result stored as info['file tree']", entries[0][1], entries[0][0])
     F["single.key"] = single_file_key(ctx, cls, fn)
+    if hv is None:
+        # the per-file hasher is obtained in a way this extractor does not follow (a factory attribute, a helper): what the
+        # leaf, the layer and the empty-file arm say about *its* attributes cannot be stated
+        for k in ("leaf", "layer.key", "layer.value", "empty.leaf"):
+            if k in F and F[k].value != UND:
+                F[k] = und("the per-file hasher is not constructed in this function: its attributes cannot be identified", F[k].node, fn)
     return F, fn, fb, sv, hv
 
 
@@ -373,6 +379,10 @@ def hybrid_entry_facts(ctx, cq, fn, fb, sv, hv):
         F["v1.pieces"] = Fact("extended with the hasher's v1 piece hashes" if ok else "extend(%s)" % v, pe[0], fn)
     else:
         F["v1.pieces"] = und("expected one extension of self.pieces, found %d" % len(pe), fb, fn)
+    if hv is None:
+        for k in ("padding.entry", "v1.pieces"):
+            if k in F and F[k].value != UND:
+                F[k] = und("the per-file hasher is not constructed in this function: its attributes cannot be identified", F[k].node, fn)
     return F
 
 
